@@ -96,6 +96,8 @@ type Gen struct {
 	recording  bool
 	preDefs    []string
 	stableFV   map[*ssa.FreeVar]bool
+	cloBind    map[string]ssa.Value
+	stableLoc  map[*ssa.Alloc]bool
 }
 
 type deferRec struct {
@@ -413,6 +415,11 @@ func (g *Gen) subref(structT types.Type, idx int, base string) string {
 		g.decl[fn] = "fun:(Int) Int"
 		g.dord = append(g.dord, fn)
 		g.defs = append(g.defs, fmt.Sprintf("(assert (forall ((r Int)) (! (=> (not (= r 0)) (not (= (%s r) 0))) :pattern ((%s r)))))", fn, fn))
+		// embedded objects are distinct from each other, from allocated objects and from slice elements
+		inv := "subinv" + strings.TrimPrefix(fn, "sub")
+		g.decl[inv] = "fun:(Int) Int"
+		g.dord = append(g.dord, inv)
+		g.defs = append(g.defs, fmt.Sprintf("(assert (forall ((r Int)) (! (and (= (%s (%s r)) r) (= (subtag (%s r)) %d)) :pattern ((%s r)))))", inv, fn, fn, g.P.typeID2("subref:"+fn), fn))
 	}
 	return fmt.Sprintf("(%s %s)", fn, base)
 }
